@@ -267,38 +267,70 @@ def proof_layer(prop, thorough=False):
 
 # ------------------------------------------------------------------ runners
 
+IDLE_LIMIT = float(os.environ.get("VERIF_IDLE_LIMIT", "60"))   # seconds without a result line => the case hangs
+
+
+def _feed(binary, chunk, idle, total):
+    """One child process fed with `chunk`; returns (result lines, how it ended) where the ending
+    is 'done', 'died' (process gone before answering everything) or 'hang' (no result line for
+    `idle` seconds, or `total` exceeded)."""
+    import select, threading
+    p = subprocess.Popen([binary], stdin=subprocess.PIPE, stdout=subprocess.PIPE, stderr=subprocess.DEVNULL, env=ENV)
+
+    def writer():
+        try:
+            p.stdin.write(("\n".join(chunk) + "\n").encode())
+            p.stdin.close()
+        except Exception:
+            pass
+    th = threading.Thread(target=writer, daemon=True)
+    th.start()
+    got, buf, how = [], b"", "done"
+    t_end = time.time() + total
+    fd = p.stdout.fileno()
+    while len(got) < len(chunk):
+        r, _, _ = select.select([fd], [], [], min(idle, max(0.1, t_end - time.time())))
+        if not r:
+            how = "hang"
+            break
+        data = os.read(fd, 1 << 16)
+        if not data:
+            how = "died"
+            break
+        buf += data
+        while b"\n" in buf:
+            line, buf = buf.split(b"\n", 1)
+            got.append(line.decode(errors="replace"))
+        if time.time() > t_end:
+            how = "hang"
+            break
+    try:
+        p.kill()
+    except Exception:
+        pass
+    p.wait()
+    return got[:len(chunk)], ("done" if len(got) >= len(chunk) else how)
+
+
 def _run_lines(binary, lines, timeout):
-    """Feeds lines to a runner; if the child dies or hangs mid-way, records `abort` for the case it
-    stopped on and restarts after it (at most 3 times, then the rest of the shard is `abort`).
-    The time limit scales with the number of lines.  Returns (results without comments, raw)."""
+    """Feeds lines to a runner.  A case on which the child produces nothing for IDLE_LIMIT seconds
+    is recorded as `hang`, one on which the child dies as `abort`; the runner is restarted after
+    it.  After 4 such failures in one shard the remaining lines are `skipped` (reported, never
+    compared).  Returns (results without comments, raw)."""
     results = []
     pos = 0
     n = len(lines)
     failures = 0
     while pos < n:
         chunk = lines[pos:]
-        if failures >= 3:
-            results.extend(["abort"] * len(chunk))
+        if failures >= 4:
+            results.extend(["skipped"] * len(chunk))
             break
-        limit = min(timeout, 90 + 0.05 * len(chunk))
-        try:
-            p = subprocess.run([binary], input="\n".join(chunk) + "\n", stdout=subprocess.PIPE,
-                               stderr=subprocess.DEVNULL, text=True, timeout=limit, env=ENV)
-            outl = p.stdout.split("\n")
-        except subprocess.TimeoutExpired as e:
-            so = e.stdout or ""
-            if isinstance(so, bytes):
-                so = so.decode(errors="replace")
-            outl = so.split("\n")
-            if outl and outl[-1] != "":
-                outl = outl[:-1] + [""]
-        if outl and outl[-1] == "":
-            outl = outl[:-1]
-        got = outl[:len(chunk)]
+        got, how = _feed(binary, chunk, IDLE_LIMIT, max(timeout, 120 + 0.05 * len(chunk)))
         results.extend(got)
         pos += len(got)
         if len(got) < len(chunk):
-            results.append("abort")
+            results.append("hang" if how == "hang" else "abort")
             pos += 1
             failures += 1
     return [r.split(" ; ")[0].strip() for r in results], results
@@ -332,11 +364,17 @@ def run_sharded(binary, lines, timeout=1200, shards=None):
     for c, r in outs:
         clean.extend(c); raw.extend(r)
     # a child that died for a reason unrelated to the case (machine load, a binary replaced under
-    # it) must not be taken for an abort of the library: re-run such cases once, alone
-    for i, c in enumerate(clean):
-        if c == "abort" and i < len(lines):
-            c1, r1 = _run_lines(binary, [lines[i]], 300)
-            clean[i], raw[i] = c1[0], r1[0]
+    # it) must not be taken for an abort of the library: re-run such cases once, alone (a bounded
+    # number of them); lines skipped after repeated failures get one more batch run
+    redo = [i for i, c in enumerate(clean) if c == "abort" and i < len(lines)][:6]
+    for i in redo:
+        c1, r1 = _run_lines(binary, [lines[i]], 120)
+        clean[i], raw[i] = c1[0], r1[0]
+    sk = [i for i, c in enumerate(clean) if c == "skipped" and i < len(lines)]
+    if sk:
+        c2, r2 = _run_lines(binary, [lines[i] for i in sk], timeout)
+        for i, c, r in zip(sk, c2, r2):
+            clean[i], raw[i] = c, r
     return clean, raw
 
 
@@ -390,7 +428,7 @@ def shrink_candidates(t):
 
 
 MAXU = 18446744073709551615
-BAD_RESULTS = {"(-1)", "(-3)", "(-4)", "abort"}
+BAD_RESULTS = {"(-1)", "(-3)", "(-4)", "abort", "hang", "skipped"}
 
 
 # ------------------------------------------------------------------ correspondence
@@ -461,15 +499,26 @@ def correspondence(prop, cases, evid, corpus=True):
     """Runs all cases through modelrun and both implrun profiles and returns the list of
     disagreements (unshrunk).  Fills counters into evid."""
     lines = list(cases)
+    npre = 0
     if corpus:
         cp = os.path.join(VERIF, "corpus", prop + ".txt")
         if os.path.exists(cp):
-            pre = [l.strip() for l in open(cp) if l.strip() and not l.startswith("#")]
-            lines = pre + lines
-            evid["corpus_cases"] = len(pre)
+            pre = list(dict.fromkeys(l.strip() for l in open(cp) if l.strip() and not l.startswith("#")))
+            seen = set(pre)
+            lines = pre + [l for l in lines if l not in seen]
+            npre = len(pre)
+            evid["corpus_cases"] = npre
     t0 = time.time()
     model, _ = run_sharded(MODELRUN, lines)
     evid["model_wall_s"] = round(time.time() - t0, 1)
+    # corpus lines are minimised past disagreements (seeded changes, earlier findings); a line
+    # that the case language no longer accepts (the decoder evolved) is dropped, and counted
+    stale = [i for i in range(npre) if model[i] in BAD_RESULTS]
+    if stale:
+        evid["corpus_stale_dropped"] = len(stale)
+        keep = [i for i in range(len(lines)) if i not in set(stale)]
+        lines = [lines[i] for i in keep]
+        model = [model[i] for i in keep]
     out = []
     bad_model = [i for i, m in enumerate(model) if m in BAD_RESULTS]
     if bad_model:
@@ -479,9 +528,15 @@ def correspondence(prop, cases, evid, corpus=True):
         t0 = time.time()
         impl, raw = run_sharded(implrun(prof), lines)
         evid["impl_%s_wall_s" % prof] = round(time.time() - t0, 1)
+        nskip = 0
         for i, (m, r) in enumerate(zip(model, impl)):
+            if r == "skipped":          # not evaluated (the shard gave up after repeated hangs/aborts)
+                nskip += 1
+                continue
             if m != r:
                 out.append(Disagreement(lines[i], m, raw[i], prof))
+        if nskip:
+            evid["impl_%s_skipped_after_repeated_failures" % prof] = nskip
     evid["evaluations"] = len(lines)
     evid["traces_validated_against_impl"] = 2 * len(lines)
     return lines, model, out
